@@ -1,14 +1,192 @@
 (** C17 -- the JSON single-model runner is equivalent to a direct run and always answers.
-    Only statements, each closed by [exact <lemma>]; proofs live in Json/*Proofs.v. *)
-From Coq Require Import String ZArith List.
-From OW Require Import Json.Encode Json.EncodeProofs.
+    Only statements, each closed by [exact <lemma>]; proofs live in Json/*Proofs.v and
+    Json/Examples.v.
+
+    Level: DECODED requests and ENCODED value trees (encoding/json is trusted).  The model
+    description, InitialiseStates and the one-cell kernel are arguments ([catalog]), so the
+    statements hold for every catalogued model.  [T] is the number type, [zero] its 0.0 and
+    [classify] what math.IsNaN / math.IsInf see of a number.
+
+    What is NOT claimed: "always answers" is false for the code as it is (C17_always_answers_refuted,
+    C17_kernel_panic_kills_the_runner, C17_split_states_short_kills_the_runner); the exact
+    conditions under which the runner does answer are in C17_run_single_total. *)
+From Coq Require Import Ascii String ZArith List Bool.
+From OW Require Import Json.Encode Json.EncodeProofs Json.Request Json.RequestProofs Json.Examples.
 Import ListNotations.
 Local Open Scope Z_scope.
 
-Theorem C17_json_safe_array_nested : forall (T : Type) (classify : T -> fclass) (v : view T) (d : nat),
+(* ------------------------------------------------------------------ JSON-safe conversion *)
+
+(** For EVERY view (flat buffer, dims, start, per-axis strides: every chain of slices of every
+    array) and EVERY shift dimension d < ndims, JsonSafeArray is the nesting of dims[d..] whose
+    leaf (i_d,..) is the JSON-safe form of element (0,..,0,i_d,..); it panics ([None]) exactly
+    when that nesting reads outside the buffer or meets a negative extent. *)
+Theorem C17_json_safe_array_nested :
+  forall (T : Type) (classify : T -> fclass) (v : view T) (d : nat),
   length (vstrides v) = length (vdims v) -> (d < length (vdims v))%nat ->
   json_safe_array classify v (Z.of_nat d) =
   nested (skipn d (vdims v))
          (fun idx => option_map (json_safe_value classify) (vget v (repeat 0 d ++ idx))).
 Proof. exact (@json_safe_array_nested). Qed.
 Print Assumptions C17_json_safe_array_nested.
+
+(** The same in words: the result is arrays nested exactly like dims[d..], and the value at
+    path (i_d,..) is the JSON-safe form of element (0,..,0,i_d,..). *)
+Theorem C17_json_safe_array_shape_and_leaves :
+  forall (T : Type) (classify : T -> fclass) (v : view T) (d : nat) (j : jvalue T),
+  length (vstrides v) = length (vdims v) -> (d < length (vdims v))%nat ->
+  json_safe_array classify v (Z.of_nat d) = Some j ->
+  jshape (skipn d (vdims v)) j /\
+  forall idx, Forall2 (fun i n => 0 <= i < n) idx (skipn d (vdims v)) ->
+    exists x, vget v (repeat 0 d ++ idx) = Some x /\ jpath j idx = Some (json_safe_value classify x).
+Proof. exact (@json_safe_array_shape_and_leaves). Qed.
+Print Assumptions C17_json_safe_array_shape_and_leaves.
+
+(** non-finite numbers are the strings NaN, +Inf, -Inf; finite ones stay numbers *)
+Theorem C17_json_safe_value :
+  forall (T : Type) (classify : T -> fclass) (x : T),
+  match classify x with
+  | Finite => json_safe_value classify x = JNum x
+  | IsNaN => json_safe_value classify x = JStr (jstr "NaN")
+  | PosInf => json_safe_value classify x = JStr (jstr "+Inf")
+  | NegInf => json_safe_value classify x = JStr (jstr "-Inf")
+  end.
+Proof. exact (@json_safe_value_cases). Qed.
+Print Assumptions C17_json_safe_value.
+
+(** a shift dimension outside 0..ndims-1 is a panic (not in the property's domain) *)
+Theorem C17_json_safe_array_bad_shift :
+  forall (T : Type) (classify : T -> fclass) (v : view T) (s : Z),
+  s < 0 \/ Z.of_nat (length (vdims v)) <= s -> json_safe_array classify v s = None.
+Proof. exact (@json_safe_array_bad_shift). Qed.
+Print Assumptions C17_json_safe_array_bad_shift.
+
+(* ------------------------------------------------------------------ the runner *)
+
+(** For every request that names a catalogued model [m] (InitialiseStates returns [st]) and
+    supplies at least one of its inputs, all supplied ones of one length [len]:
+    if the direct one-cell run -- defaults for the missing parameters, zero series for the
+    missing inputs, the model's own initial states (supplied states are ignored by the code) --
+    returns (outs, fin) shaped like the output array, then the runner answers with exactly the
+    encoding of (outs, fin), and its log is the blank first entry followed by one entry per
+    missing parameter and then one per missing input, in description order.
+    (splitOutputs: names must be distinct, and only the first |state names| states are reported.) *)
+Theorem C17_run_single_equals_direct :
+  forall (T : Type) (zero : T) (classify : T -> fclass)
+         (cat : catalog) (split : bool) (req : request) (m : model) (st : list T) (len : nat)
+         (outs : list (list T)) (fin : list T),
+  runnable cat req m st len ->
+  direct_run m (resolved_params (m_desc m) req) (resolved_inputs zero (m_desc m) req len) = Some (outs, fin) ->
+  well_shaped (m_desc m) len outs ->
+  (split = true -> NoDup (d_outputs (m_desc m)) /\ NoDup (d_states (m_desc m)) /\
+                   (length (d_states (m_desc m)) <= length fin)%nat) ->
+  run_single zero classify cat split req =
+  Responded (mkResponse (LBlank :: param_log (m_desc m) req ++ input_log (m_desc m) req)
+                        (Some (enc_outputs classify split (m_desc m) outs))
+                        (Some (enc_states classify split (m_desc m) fin))).
+Proof. exact (@run_single_equals_direct). Qed.
+Print Assumptions C17_run_single_equals_direct.
+
+(** Every decoded request, and every decode failure, has exactly the outcome of its class:
+    an error entry and no result for a decode failure, an empty or unknown model name, no input at
+    all, unequal input lengths; a result otherwise -- unless the model's own code panics, which
+    kills the process ([Crashed]). *)
+Theorem C17_run_single_total :
+  forall (T : Type) (zero : T) (classify : T -> fclass) (cat : catalog) (split : bool) (d : option request),
+  match d with
+  | None => run_single_decoded zero classify cat split d = Responded (error_response LErrDecode)
+  | Some req =>
+    run_single_decoded zero classify cat split d = run_single zero classify cat split req /\
+    match classify_request cat req with
+    | CNoName => run_single zero classify cat split req = Responded (error_response LErrNoName)
+    | CUnknown => run_single zero classify cat split req = Responded (error_response (LErrUnknown (q_name req)))
+    | CInitPanics _ => run_single zero classify cat split req = Crashed (Some empty_response)
+    | CNoInputs _ => run_single zero classify cat split req = Responded (error_response LErrNoInputs)
+    | CBadLength _ n got expected =>
+      run_single zero classify cat split req
+      = Responded (error_response (LErrInputLength n got (Z.of_nat expected)))
+    | CRunnable m len =>
+      match direct_run m (resolved_params (m_desc m) req) (resolved_inputs zero (m_desc m) req len) with
+      | None => run_single zero classify cat split req = Crashed None
+      | Some (outs, fin) =>
+        well_shaped (m_desc m) len outs ->
+        (split = true -> NoDup (d_outputs (m_desc m)) /\ NoDup (d_states (m_desc m)) /\
+                         (length (d_states (m_desc m)) <= length fin)%nat) ->
+        exists o s, run_single zero classify cat split req
+                    = Responded (mkResponse (LBlank :: param_log (m_desc m) req ++ input_log (m_desc m) req)
+                                            (Some o) (Some s))
+      end
+    end
+  end.
+Proof. exact (@run_single_total). Qed.
+Print Assumptions C17_run_single_total.
+
+(* ------------------------------------------------------------------ where "always answers" fails *)
+
+(** a panicking kernel kills the runner: no document *)
+Theorem C17_kernel_panic_kills_the_runner :
+  forall (T : Type) (zero : T) (classify : T -> fclass) (cat : catalog) (split : bool) (req : request)
+         (m : model) (st : list T) (len : nat),
+  runnable cat req m st len ->
+  m_kernel m (resolved_params (m_desc m) req) st (resolved_inputs zero (m_desc m) req len) = None ->
+  run_single zero classify cat split req = Crashed None.
+Proof. exact (@run_single_kernel_panic). Qed.
+Print Assumptions C17_kernel_panic_kills_the_runner.
+
+(** splitOutputs with fewer states than state names kills the runner inside encodeResults *)
+Theorem C17_split_states_short_kills_the_runner :
+  forall (T : Type) (zero : T) (classify : T -> fclass) (cat : catalog) (req : request)
+         (m : model) (st : list T) (len : nat) (outs : list (list T)) (fin : list T),
+  runnable cat req m st len ->
+  m_kernel m (resolved_params (m_desc m) req) st (resolved_inputs zero (m_desc m) req len) = Some (outs, fin) ->
+  well_shaped (m_desc m) len outs -> NoDup (d_outputs (m_desc m)) ->
+  (length fin < length (d_states (m_desc m)))%nat ->
+  run_single zero classify cat true req = Crashed None.
+Proof. exact (@run_single_split_states_short). Qed.
+Print Assumptions C17_split_states_short_kills_the_runner.
+
+(** concrete witness: a catalogued model whose direct run succeeds, and the runner dies *)
+Theorem C17_always_answers_refuted :
+  exists (cat : catalog (T:=Z)) (req : request) (m : model) outs fin,
+    cat (q_name req) = Some m /\
+    direct_run m (resolved_params (m_desc m) req) (resolved_inputs 0 (m_desc m) req 2) = Some (outs, fin) /\
+    run_single 0 toy_classify cat true req = Crashed None.
+Proof. exact always_answers_refuted. Qed.
+Print Assumptions C17_always_answers_refuted.
+
+(* ------------------------------------------------------------------ non-vacuity *)
+Example C17_example_defaults_and_missing_input :
+  toy_run true (mkRequest (jstr "Sum2") [(jstr "b", Some [1; 2; 3])] [] [])
+  = Responded (mkResponse [LBlank; LParamDefault (jstr "scale") 2; LMissingInput (jstr "a")]
+                          (Some (JObj [(jstr "out", JArr [JNum 2; JNum 4; JNum 6])]))
+                          (Some (JObj [(jstr "s", JNum 0)]))).
+Proof. exact toy_defaults_and_missing_input. Qed.
+
+Example C17_example_superset_order_nonfinite :
+  toy_run false (mkRequest (jstr "Sum2")
+                           [(jstr "zz", Some [9]); (jstr "b", Some [1; 2000]); (jstr "a", Some [1; 2]);
+                            (jstr "b", Some [7; 7; 7])]
+                           [(jstr "s", 5)]
+                           [(jstr "other", 1); (jstr "scale", -1000); (jstr "scale", 3)])
+  = Responded (mkResponse [LBlank]
+                          (Some (JArr [JArr [JStr (jstr "NaN"); JStr (jstr "NaN")]]))
+                          (Some (JArr [JNum 0]))).
+Proof. exact toy_superset_nonfinite. Qed.
+
+Example C17_example_error_cases :
+  toy_run true (mkRequest [] [] [] []) = Responded (error_response LErrNoName) /\
+  toy_run true (mkRequest (jstr "Nope") [] [] []) = Responded (error_response (LErrUnknown (jstr "Nope"))) /\
+  toy_run true (mkRequest (jstr "Sum2") [(jstr "zz", Some [1])] [] []) = Responded (error_response LErrNoInputs) /\
+  toy_run true (mkRequest (jstr "Sum2") [(jstr "a", None)] [] []) = Responded (error_response LErrNoInputs) /\
+  toy_run true (mkRequest (jstr "Sum2") [(jstr "b", Some [1; 2; 3]); (jstr "a", Some [1; 2])] [] [])
+  = Responded (error_response (LErrInputLength (jstr "b") 3 2)) /\
+  run_single_decoded 0 toy_classify toy_catalog true None = Responded (error_response LErrDecode).
+Proof. exact toy_error_cases. Qed.
+
+Example C17_example_stepped_view :
+  json_safe_array toy_classify toy_view 0
+  = Some (JArr [JArr [JNum 10; JNum 12]; JArr [JNum 20; JStr (jstr "NaN")]]) /\
+  json_safe_array toy_classify toy_view 1 = Some (JArr [JNum 10; JNum 12]) /\
+  json_safe_array toy_classify toy_view 2 = None /\
+  json_safe_array toy_classify (mkView [1; 2] [3] 0 [1]) 0 = None.
+Proof. exact toy_view_nested. Qed.
